@@ -141,7 +141,8 @@ package analysis
 // the ids are unique within the primary and within the mixin, the documents share no operation object, and the
 // renamed form '<id>Mixin<N>' of an id of the mixin is neither recorded yet nor an id of the mixin (the premise of the
 // property). Trusted string fact: for a fixed N the renamed form determines the id (mixNameInj).
-//@ ofun opOfDoc(s *spec.Swagger, o *spec.Operation) bool = s.Paths != nil && (exists k in dom(s.Paths.Paths) :: isOpOf(s.Paths.Paths[k], o))
+//@ ofun opOfMap(pm map[string]spec.PathItem, o *spec.Operation) bool = exists k in dom(pm) :: isOpOf(pm[k], o)
+//@ fun opOfDoc(s *spec.Swagger, o *spec.Operation) bool = s.Paths != nil && opOfMap(s.Paths.Paths, o)
 //@ fun uniqIDs(s *spec.Swagger) bool = forall o1 *spec.Operation :: forall o2 *spec.Operation :: opOfDoc(s, o1) && opOfDoc(s, o2) && o1 != o2 && o1.ID != "" ==> o1.ID != o2.ID
 //@ fun coveredIDs(s *spec.Swagger, ids map[string]bool) bool = forall o *spec.Operation :: opOfDoc(s, o) && o.ID != "" ==> o.ID in dom(ids)
 //@ ofun idFree(s *spec.Swagger, id string) bool = forall o *spec.Operation :: opOfDoc(s, o) ==> o.ID != id
@@ -156,6 +157,10 @@ package analysis
 //@   requires forall o *spec.Operation :: opOfDoc(m, o) && o.ID != "" ==> !(mixName(o.ID, mixIndex) in dom(opIDs)) && (forall o2 *spec.Operation :: opOfDoc(m, o2) ==> o2.ID != mixName(o.ID, mixIndex))
 //@   modifies map primary.Paths.Paths, map opIDs, heap spec.Operation
 //@   ensures uniqIDs(primary) && coveredIDs(primary, opIDs)
+//@   ensures forall id in dom(opIDs) :: opIDs[id]
+//@   ensures forall id in dom(opIDs) :: old(id in dom(opIDs)) || (exists o *spec.Operation :: old(opOfDoc(m, o)) && old(o.ID) != "" && (id == old(o.ID) || id == mixName(old(o.ID), mixIndex)))
+//@   ensures forall o *spec.Operation :: !fresh(o) && o.ID != old(o.ID) ==> old(opOfDoc(m, o))
+//@   ensures forall o *spec.Operation :: opOfDoc(primary, o) ==> old(opOfDoc(primary, o)) || old(opOfDoc(m, o))
 //@   loop 1: modifies map primary.Paths.Paths, map opIDs, heap spec.Operation
 //@   loop 1: invariant forall k string :: (k in dom(primary.Paths.Paths)) <==> (old(k in dom(primary.Paths.Paths)) || k in seen)
 //@   loop 1: invariant forall k in seen :: k in dom(m.Paths.Paths)
@@ -191,6 +196,11 @@ package analysis
 //@   loop 2: invariant forall j in idx..len(piops) :: old(piops[j].ID) != "" ==> !(mixName(old(piops[j].ID), mixIndex) in dom(opIDs))
 //@   loop 1: invariant forall id in dom(opIDs) :: opIDs[id]
 //@   loop 2: invariant forall id in dom(opIDs) :: opIDs[id]
+//@   loop 1: invariant forall id in dom(opIDs) :: old(id in dom(opIDs)) || (exists o *spec.Operation :: old(opOfDoc(m, o)) && old(o.ID) != "" && (id == old(o.ID) || id == mixName(old(o.ID), mixIndex)))
+//@   loop 2: invariant forall id in dom(opIDs) :: old(id in dom(opIDs)) || (exists o *spec.Operation :: old(opOfDoc(m, o)) && old(o.ID) != "" && (id == old(o.ID) || id == mixName(old(o.ID), mixIndex)))
+//@   loop 1: invariant forall o *spec.Operation :: !fresh(o) && o.ID != old(o.ID) ==> old(opOfDoc(m, o))
+//@   loop 2: invariant forall o *spec.Operation :: !fresh(o) && o.ID != old(o.ID) ==> old(opOfDoc(m, o))
+//@   loop 1: invariant forall o *spec.Operation :: opOfDoc(primary, o) ==> old(opOfDoc(primary, o)) || old(opOfDoc(m, o))
 
 // ---- keyed sections: union, primary wins, one warning per collision (C17)
 
@@ -500,6 +510,7 @@ package analysis
 //@   ensures old(primary.SecurityDefinitions) != nil ==> primary.SecurityDefinitions == old(primary.SecurityDefinitions)
 //@   ensures old(primary.Paths) != nil ==> primary.Paths == old(primary.Paths) && (old(primary.Paths.Paths) != nil ==> primary.Paths.Paths == old(primary.Paths.Paths))
 //@   ensures old(primary.Definitions) == nil ==> fresh(primary.Definitions) && len(primary.Definitions) == 0
+//@   ensures forall o *spec.Operation :: opOfDoc(primary, o) == old(opOfDoc(primary, o))
 //@   ensures old(primary.Parameters) == nil ==> fresh(primary.Parameters) && len(primary.Parameters) == 0
 //@   ensures len(primary.Consumes) == old(len(primary.Consumes)) && (forall x in 0..len(primary.Consumes) :: primary.Consumes[x] == old(primary.Consumes[x]))
 //@   ensures len(primary.Produces) == old(len(primary.Produces)) && (forall x in 0..len(primary.Produces) :: primary.Produces[x] == old(primary.Produces[x]))
@@ -585,6 +596,32 @@ package analysis
 //@   loop 1: invariant len(primary.Schemes) >= old(len(primary.Schemes)) && (forall x in 0..old(len(primary.Schemes)) :: primary.Schemes[x] == old(primary.Schemes[x]))
 //@   loop 1: invariant (forall i in 0..idx :: forall j in 0..len(mixins[i].Schemes) :: inStrs(primary.Schemes, mixins[i].Schemes[j]))
 //@   loop 1: invariant (forall x in old(len(primary.Schemes))..len(primary.Schemes) :: (exists i in 0..idx :: inStrs(mixins[i].Schemes, primary.Schemes[x])) && (forall x2 in 0..x :: primary.Schemes[x2] != primary.Schemes[x]))
+
+// ---- Mixin as a whole keeps operation ids pairwise distinct (C18, aspect uniq). Hypotheses of the property: ids unique
+// within each document; no document already holds an id of the form '<id>Mixin<N>' of an id of any document. Further
+// premises: the documents are distinct objects sharing no operation and no section map. Trusted string fact
+// (mixNameInj2): the renamed form determines both the id and the index.
+//@ ofun idOfDoc(s *spec.Swagger, id string) bool = id != "" && (exists o *spec.Operation :: opOfDoc(s, o) && o.ID == id)
+//@ axiom mixNameNonEmpty: forall a string :: forall i int :: mixName(a, i) != ""
+//@ axiom mixNameInj2: forall a string :: forall b string :: forall i int :: forall j int :: mixName(a, i) == mixName(b, j) ==> a == b && i == j
+//@ func Mixin(primary, mixins)
+//@   aspect uniq
+//@   requires forall i in 0..len(mixins) :: !fresh(mixins[i].Definitions) && !fresh(mixins[i].Parameters) && !fresh(mixins[i].Responses) && !fresh(mixins[i].SecurityDefinitions) && !fresh(mixins[i].Paths) && !fresh(swPaths(mixins[i]))
+//@   requires primary != nil && (forall i in 0..len(mixins) :: mixins[i] != nil && mixins[i] != primary && (primary.Paths != nil ==> primary.Paths != mixins[i].Paths) && treeOps(mixins[i]) && (primary.Definitions != nil ==> primary.Definitions != mixins[i].Definitions) && (primary.Parameters != nil ==> primary.Parameters != mixins[i].Parameters) && (primary.Responses != nil ==> primary.Responses != mixins[i].Responses) && (primary.SecurityDefinitions != nil ==> primary.SecurityDefinitions != mixins[i].SecurityDefinitions) && (swPaths(primary) != nil ==> swPaths(primary) != swPaths(mixins[i])))
+//@   requires forall i in 0..len(mixins) :: forall o *spec.Operation :: opOfDoc(mixins[i], o) ==> !fresh(o)
+//@   requires treeOps(primary) && uniqIDs(primary) && (forall i in 0..len(mixins) :: uniqIDs(mixins[i]))
+//@   requires forall i in 0..len(mixins) :: forall o *spec.Operation :: opOfDoc(mixins[i], o) ==> !opOfDoc(primary, o) && (forall j in 0..len(mixins) :: j != i ==> !opOfDoc(mixins[j], o))
+//@   requires forall a string :: forall n int :: (idOfDoc(primary, a) || (exists i in 0..len(mixins) :: idOfDoc(mixins[i], a))) ==> !(idOfDoc(primary, mixName(a, n)) || (exists i in 0..len(mixins) :: idOfDoc(mixins[i], mixName(a, n))))
+//@   modifies heap spec.Swagger, heap spec.Paths, heap spec.Info, heap spec.ContactInfo, heap spec.License, heap spec.ExternalDocumentation, heap spec.Extensions, heap spec.Operation, heap map[string]spec.PathItem, heap spec.Definitions, heap map[string]spec.Parameter, heap map[string]spec.Response, heap map[string]*spec.SecurityScheme
+//@   ensures uniqIDs(primary)
+//@   loop 1: invariant primary != nil && opIDs != nil && (forall i in 0..len(mixins) :: mixins[i] != nil && mixins[i] != primary && primary.Paths != mixins[i].Paths && treeOps(mixins[i]) && (primary.Definitions != mixins[i].Definitions) && (primary.Parameters != mixins[i].Parameters) && (primary.Responses != mixins[i].Responses) && (primary.SecurityDefinitions != mixins[i].SecurityDefinitions) && (swPaths(primary) != swPaths(mixins[i])))
+//@   loop 1: invariant primary.SecurityDefinitions != nil && primary.Paths != nil && primary.Paths.Paths != nil && primary.Definitions != nil && primary.Parameters != nil && primary.Responses != nil
+//@   loop 1: invariant uniqIDs(primary) && coveredIDs(primary, opIDs) && (forall id in dom(opIDs) :: opIDs[id])
+//@   loop 1: invariant forall id in dom(opIDs) :: old((idOfDoc(primary, id) || (exists i in 0..len(mixins) :: idOfDoc(mixins[i], id)))) || (exists j in 0..idx :: exists a string :: old(idOfDoc(mixins[j], a)) && id == mixName(a, j))
+//@   loop 1: invariant forall i in idx..len(mixins) :: forall o *spec.Operation :: opOfDoc(mixins[i], o) ==> o.ID == old(o.ID)
+//@   loop 1: invariant forall i in idx..len(mixins) :: forall o *spec.Operation :: opOfDoc(mixins[i], o) ==> !opOfDoc(primary, o)
+//@   loop 1: invariant forall i in 0..len(mixins) :: forall o *spec.Operation :: opOfDoc(mixins[i], o) == old(opOfDoc(mixins[i], o))
+//@   loop 1: invariant forall i in idx..len(mixins) :: forall o *spec.Operation :: opOfDoc(mixins[i], o) && o.ID != "" ==> old(idOfDoc(mixins[i], o.ID))
 
 //@ func mergeSwaggerProps(primary, m)
 //@   uses safety for mergeInfo, mergeExtensions
